@@ -26,6 +26,8 @@ def main():
         items = []
         for mm in re.finditer(r"^theorem\s+([A-Za-z0-9_'.]+)", src, re.M):
             name = mm.group(1)
+            if src.count("/-", 0, mm.start()) > src.count("-/", 0, mm.start()):
+                continue          # the word `theorem` at the start of a line inside a comment
             head = src[:mm.start()].rstrip()
             doc = None
             if head.endswith("-/"):
@@ -35,6 +37,14 @@ def main():
             kind = "partial" if name.endswith("_partial") else "witness" if name.endswith("_witness") else "full"
             items.append(dict(name="SafeC.Props.%s.%s" % (pid, name), module="SafeC.Props.%s" % pid, kind=kind,
                               covers=" ".join((doc or name).split())[:300]))
+        if pid == "C10":
+            ro = open(os.path.join(LEAN, "SafeC", "Proofs", "QueryRO.lean")).read()
+            for mm in re.finditer(r"^theorem\s+([A-Za-z0-9_']+_readonly[A-Za-z0-9_']*)", ro, re.M):
+                n = mm.group(1)
+                items.append(dict(name="SafeC." + n, module="SafeC.Proofs.QueryRO", kind="partial" if n.endswith("_partial") else "full",
+                                  covers="%s: the model contains no store: operands are never modified, on any input" % n.split("_readonly")[0]))
+            items.append(dict(name="SafeC.exec_noStore", module="SafeC.Proofs.Query", kind="meta",
+                              covers="a program without store nodes leaves the memory contents unchanged"))
         for (n, mod, kind, cov) in EXTRA.get(pid, []):
             items.append(dict(name=n, module=mod, kind=kind, covers=cov))
         if items:
